@@ -591,9 +591,10 @@ def package_document_load(package_path, is_instance):
     for tup in workflow_components:
         (doc_path, doc_id, doc, bindings, doc_stage, doc_name, label) = tup
         try:
+            # VV: everything except the components of this document (which must remain known to other documents)
             foreign_ids = component_ids.copy()
             for comp in doc.get('components', []):
-                component_ids.remove((comp.get('stage', 0) + doc_stage, comp['name']))
+                foreign_ids.remove((comp.get('stage', 0) + doc_stage, comp['name']))
 
             wf_components = instantiate_workflow(doc, bindings, doc_stage, foreign_ids, doc_path)
             new_components.extend(wf_components)
@@ -605,9 +606,10 @@ def package_document_load(package_path, is_instance):
     for tup in do_while_components:
         (doc_path, doc_id, doc, bindings, doc_stage, doc_name, label) = tup
         try:
+            # VV: everything except the components of this document (which must remain known to other documents)
             foreign_ids = component_ids.copy()
             for comp in doc.get('components', []):
-                component_ids.remove((comp.get('stage', 0) + doc_stage, comp['name']))
+                foreign_ids.remove((comp.get('stage', 0) + doc_stage, comp['name']))
 
             dw_components, new_dw_doc = instantiate_dowhile(doc, bindings, doc_stage, doc_name, foreign_ids, label, 0)
 
